@@ -108,7 +108,7 @@ Fixpoint build (cs : list xcode) (i : positive) (a : Z) (im : image) : image :=
   | c :: r =>
       let im' := {| code := PM.add i c (code im);
                     addr_of := PM.add i a (addr_of im);
-                    index_at := if isize c =? 0 then index_at im else PM.add (key a) i (index_at im);
+                    index_at := match PM.find (key a) (index_at im) with Some _ => index_at im | None => PM.add (key a) i (index_at im) end;
                     labels := match c with LAB l => (l, i) :: labels im | _ => labels im end;
                     len := i |} in
       build r (Pos.succ i) (a + isize c) im'
@@ -120,7 +120,8 @@ Fixpoint find_label (ls : list (string * positive)) (l : string) : option positi
   | [] => None
   | (l', i) :: r => if String.eqb l l' then Some i else find_label r l
   end.
-(* the address of a label is the address of the next instruction of non-zero size *)
+(* the address of a label is the address of the next instruction of non-zero size; an indirect jump to an
+   address enters at the FIRST (possibly zero-size: label, marker) instruction placed at that address *)
 Definition label_addr (im : image) (l : string) : option Z :=
   match find_label (labels im) l with Some i => PM.find i (addr_of im) | None => None end.
 Definition duplicate_labels (im : image) : list string :=
@@ -142,8 +143,17 @@ Definition need (v : option Z) (why : string) (k : Z -> step_res) (s : xstate) :
 Definition withm {X} (m : mres X) (s : xstate) (k : X -> step_res) : step_res :=
   match m with MOk x => k x | MFault w => Fault w s end.
 
+(* effective address; a stack access below the stack pointer (memory the code has not reserved
+   or pushed) is a fault *)
 Definition ea (s : xstate) (b : N) (i : Z) (k : Z -> step_res) : step_res :=
-  need (rget s b) "undef-address" (fun bz => k (bz + i)) s.
+  need (rget s b) "undef-address" (fun bz =>
+    let a := bz + i in
+    if in_stack a then
+      match rget s 0%N with
+      | Some sp => if a <? sp then Fault "access-below-stack-pointer" s else k a
+      | None => Fault "undef-rsp" s
+      end
+    else k a) s.
 
 Definition arith_rr (f : Z -> Z -> Z) (s : xstate) (a b : N) : step_res :=
   need (rget s a) "undef-operand" (fun x => need (rget s b) "undef-operand" (fun y =>
